@@ -23,3 +23,21 @@ Theorem C02_surplus_cell_rejected : forall bad row s icol col prev,
   forall r, step_cell bad row s icol col <> IOk r.
 Proof. exact surplus_cell_rejected. Qed.
 Print Assumptions C02_surplus_cell_rejected.
+
+(* every imported document is a tree whose node ids are creation order: a parent precedes its children, every
+   node is listed in the children of exactly its parent, the root has no parent *)
+From KV Require Import TreeProofs.
+Theorem C02_tree : forall bad text d, loads bad text = IOk d -> tree_ok d.
+Proof. exact loads_tree_ok. Qed.
+Print Assumptions C02_tree.
+
+(* what one cell does (creation spec of add_node): the new node gets the next id, the given parent / header /
+   last spine operator, and no existing node changes its identity, stage, token, parent or header *)
+Theorem C02_add_node : forall d st p t lo sg h d' id, tree_ok d -> p < List.length (d_nodes d) ->
+  add_node d st p t lo sg h = IOk (d', id) ->
+  id = List.length (d_nodes d) /\ List.length (d_nodes d') = S id /\ tree_ok d' /\
+  n_parent (get_node d' id) = Some p /\ n_tok (get_node d' id) = Some t /\ n_header (get_node d' id) = h /\
+  n_stage (get_node d' id) = st /\ n_lastop (get_node d' id) = lo /\
+  (forall i, i < id -> core (get_node d' i) = core (get_node d i) /\ n_header (get_node d' i) = n_header (get_node d i)).
+Proof. exact add_node_spec. Qed.
+Print Assumptions C02_add_node.
